@@ -127,6 +127,19 @@ def make_view(ds, case, seed='case', call=None):
   call = call or case['call']
   if call == 'hparams':
     return ds.shuffle_repeat_batch(fedjax.ShuffleRepeatBatchHParams(**kw))
+  if call == 'override':
+    # Documented form: an hparams object overridden by keyword arguments.  The
+    # object holds DIFFERENT values for every field; all of them are overridden,
+    # including overrides to None (num_epochs=None / num_steps=None / seed=None
+    # are meaningful values, not "unspecified").
+    base = fedjax.ShuffleRepeatBatchHParams(
+        batch_size=kw['batch_size'] + 2,
+        num_epochs=3 if kw['num_epochs'] != 3 else 2,
+        num_steps=5 if kw['num_steps'] != 5 else 4,
+        drop_remainder=not kw['drop_remainder'],
+        seed=11 if kw['seed'] != 11 else 12,
+        skip_shuffle=not kw['skip_shuffle'])
+    return ds.shuffle_repeat_batch(base, **kw)
   if call == 'defaults':
     # Only what differs from the documented defaults is passed.
     kw = {k: v for k, v in kw.items()
@@ -371,7 +384,7 @@ SEEDS = st.one_of(st.sampled_from(range(21)),
                   st.sampled_from([1, 0, 2**31 - 1, 2**31, 2**32 - 1, 12345]),
                   st.integers(0, 2**32 - 1),
                   st.integers(2**16, 2**32 - 1))
-CALLS = ['kwargs', 'hparams', 'defaults']
+CALLS = ['kwargs', 'hparams', 'defaults', 'override']
 
 
 @functools.lru_cache(maxsize=None)
